@@ -189,7 +189,7 @@ func vandalSource(t *rapid.T) string {
 
 // superviseVandal runs the exhaustive part in children.
 func superviseVandal(rec *ev.Recorder, known map[string]bool) {
-	chunk := rec.Pick(40, 10)
+	chunk := rec.Pick(40, 20)
 	var mine []Case
 	for i, c := range vandalCases(chunk) {
 		if rec.Mine(i) {
